@@ -101,9 +101,17 @@ def evaluate(ctx, cases):
                 models = None
             else:
                 o = dict(OPTS[c['oids'][0]]) if c['kw'] == 'dict' else {'threshold_kwargs': {}}
-                bg = BycycleGroup(center_extrema=o.get('center_extrema', 'peak'), burst_method=o.get('burst_method', 'cycles'),
-                                  burst_kwargs=o.get('burst_kwargs'), thresholds=o.get('threshold_kwargs'),
-                                  find_extrema_kwargs=o.get('find_extrema_kwargs'), return_samples=c['rs'])
+                if c['seed'] % 2 == 0:
+                    bg = BycycleGroup(center_extrema=o.get('center_extrema', 'peak'), burst_method=o.get('burst_method', 'cycles'),
+                                      burst_kwargs=o.get('burst_kwargs'), thresholds=o.get('threshold_kwargs'),
+                                      find_extrema_kwargs=o.get('find_extrema_kwargs'), return_samples=c['rs'])
+                else:       # settings rebound after construction (and after a first fit with other settings) must be the ones used
+                    bg = BycycleGroup(thresholds={'monotonicity_threshold': 0.9}, center_extrema='trough' if o.get('center_extrema', 'peak') == 'peak' else 'peak')
+                    if c['seed'] % 4 == 1:
+                        implutil.quiet(bg.fit, sigs[:2], fs, fr, axis=0, n_jobs=1)
+                    bg.center_extrema = o.get('center_extrema', 'peak'); bg.burst_method = o.get('burst_method', 'cycles')
+                    bg.burst_kwargs = {} if o.get('burst_kwargs') is None else o.get('burst_kwargs'); bg.thresholds = o.get('threshold_kwargs')
+                    bg.find_extrema_kwargs = o.get('find_extrema_kwargs') or {'filter_kwargs': {'n_cycles': 3}}; bg.return_samples = c['rs']
                 implutil.quiet(bg.fit, sigs, fs, fr, axis=0, n_jobs=c['n_jobs'], progress=c['progress'])
                 res, models = bg.df_features, bg.models
             err = None
